@@ -18,6 +18,7 @@ func init() {
 			"A violation names the storing instruction and the call chain.",
 		NotDecided:  []string{"nothing value-level: this is a shape property; stdlib append/Buffer semantics are trusted summaries"},
 		Assumptions: []string{"bytes.Buffer is append-only over the slice it was created from and Bytes() returns that whole slice", "append/strconv.Append* never modify existing elements"},
+		Technique:   "alias/effect (region) analysis of the buffer parameter over go/ssa: append-only derivation, suffix-only writes, no reads of the prefix, no shadow append chain",
 	})
 }
 
